@@ -21,7 +21,7 @@ using namespace vf;
 
 enum Kind { M_NONE = 0,
     M_EXPECT,      // a function, b count (0 = expectNoCall), c flags (1 ignoreOtherParameters), d object id (0 none); s values; s2 return value
-    M_CALL,        // a function, d object id, phase = caller task, c extra getter (cfront profile); s values; s2 deviation ("" none, "drop", "dup", "value:k", "rename:k", "omit:k", "object", "noobject", "extra", "swap")
+    M_CALL,        // a function, d object id, phase = caller task, c extra getter (cfront profile); s values; s2 deviation ("" none, "drop", "dup", "value:k", "rename:k", "borrow:k:name", "omit:k", "object", "noobject", "extra", "swap")
     M_DATA,        // data store: a type, s name, s2 value (C19)
     M_COUNT };
 static const char* const kNames[M_COUNT] = { "none", "expect", "call", "data" };
@@ -129,7 +129,16 @@ static Str tagNameC(MockValueType_c t) {
 }
 static void* retPtr(int rv) { return rv == 0 ? (void*)0 : (void*)(uintptr_t)(0x3000 + 16 * rv); }   // class 0 returns the NULL pointer
 static int fpIndex(void (*f)()) { for (int i = 0; i < 4; i++) if (fpPool[i] == f) return i; return -1; }
-static const char* paramNameFor(const Fn& F, int k, const Str& dev) { static char buf[32]; if (dev == sfmt("rename:%d", k)) { snprintf(buf, sizeof buf, "%s_x", F.p[k].name); return buf; } return F.p[k].name; }
+// "retype:k": the same integer passed as a long; "wrap:k": the integer plus 2^32 passed as a long (equal low 32 bits, another number)
+static int retypeMode(int k, const Str& dev) { if (dev == sfmt("retype:%d", k)) return 1; if (dev == sfmt("wrap:%d", k)) return 2; return 0; }
+static long retyped(long long v, int mode) { return mode == 2 ? (long)(v + 4294967296LL) : (long)v; }
+static const char* paramNameFor(const Fn& F, int k, const Str& dev) {
+    static char buf[32];
+    if (dev == sfmt("rename:%d", k)) { snprintf(buf, sizeof buf, "%s_x", F.p[k].name); return buf; }
+    Str pre = sfmt("borrow:%d:", k);      // the name of a parameter that only another function of the scenario has
+    if (dev.compare(0, pre.size(), pre) == 0) { snprintf(buf, sizeof buf, "%s", dev.c_str() + pre.size()); return buf; }
+    return F.p[k].name;
+}
 
 // ---- C++ front end
 struct CppFront : public Front {
@@ -197,8 +206,8 @@ struct CppFront : public Front {
             int v = c.vals[(size_t)k] & 7; const char* pn = paramNameFor(F, k, c.dev);
             switch (F.p[k].ty) {
             case T_BOOL: x.withParameter(pn, (v & 1) != 0); break;
-            case T_INT: x.withParameter(pn, (int)intPool[v]); break;
-            case T_UINT: x.withParameter(pn, (unsigned)uintPool[v]); break;
+            case T_INT: if (retypeMode(k, c.dev)) x.withParameter(pn, retyped(intPool[v], retypeMode(k, c.dev))); else x.withParameter(pn, (int)intPool[v]); break;
+            case T_UINT: if (retypeMode(k, c.dev)) x.withParameter(pn, retyped((long long)uintPool[v], retypeMode(k, c.dev))); else x.withParameter(pn, (unsigned)uintPool[v]); break;
             case T_LONG: x.withParameter(pn, (long)longPool[v]); break;
             case T_ULONG: x.withParameter(pn, (unsigned long)ulongPool[v]); break;
             case T_LL: x.withParameter(pn, (cpputest_longlong)longPool[v]); break;
@@ -353,8 +362,8 @@ struct CFront : public Front {
             int v = c.vals[(size_t)k] & 7; const char* pn = paramNameFor(F, k, c.dev);
             switch (F.p[k].ty) {
             case T_BOOL: x->withBoolParameters(pn, (v & 1)); break;
-            case T_INT: x->withIntParameters(pn, (int)intPool[v]); break;
-            case T_UINT: x->withUnsignedIntParameters(pn, (unsigned)uintPool[v]); break;
+            case T_INT: if (retypeMode(k, c.dev)) x->withLongIntParameters(pn, retyped(intPool[v], retypeMode(k, c.dev))); else x->withIntParameters(pn, (int)intPool[v]); break;
+            case T_UINT: if (retypeMode(k, c.dev)) x->withLongIntParameters(pn, retyped((long long)uintPool[v], retypeMode(k, c.dev))); else x->withUnsignedIntParameters(pn, (unsigned)uintPool[v]); break;
             case T_LONG: x->withLongIntParameters(pn, (long)longPool[v]); break;
             case T_ULONG: x->withUnsignedLongIntParameters(pn, (unsigned long)ulongPool[v]); break;
             case T_LL: x->withLongLongIntParameters(pn, (cpputest_longlong)longPool[v]); break;
@@ -576,9 +585,17 @@ struct Engine : public vf::Engine {
                     size_t at = (size_t)f.below(calls.size()); Op& c = calls[at]; const Fn& F = FNS[c.a];
                     bool ign = false; for (size_t k = 0; k < G.ops.size(); k++) if (G.ops[k].kind == M_EXPECT && G.ops[k].a == c.a && (G.ops[k].c & 1)) ign = true;
                     if (x < 25) c.s2 = "drop";
-                    else if (x < 42) c.s2 = "dup";
+                    else if (x < 38) c.s2 = "dup";
+                    else if (x < 42) { int kk = -1; for (int z = 0; z < F.np; z++) if (F.p[z].ty == T_INT || F.p[z].ty == T_UINT) kk = z; bool ig = false; for (size_t q = 0; q < G.ops.size(); q++) if (G.ops[q].kind == M_EXPECT && G.ops[q].a == c.a && (G.ops[q].c & 5)) ig = true; if (kk >= 0 && !ig) c.s2 = sfmt(f.chance(1, 2) ? "retype:%d" : "wrap:%d", kk); else c.s2 = "dup"; }
                     else if (x < 58 && F.np > 0 && !ign) { int k = (int)f.below((uint64_t)F.np); if (F.p[k].ty != T_BOOL && F.p[k].ty != T_FPTR) { c.s2 = sfmt("value:%d", k); Vec<int> v = parseIdx(c.s); v[(size_t)k] = 7; c.s = joinIdx(v); } else c.s2 = "drop"; }
-                    else if (x < 68 && F.np > 0 && !ign) c.s2 = sfmt("rename:%d", (int)f.below((uint64_t)F.np));
+                    else if (x < 68 && F.np > 0 && !ign) {
+                        int k = (int)f.below((uint64_t)F.np); c.s2 = sfmt("rename:%d", k);
+                        if (f.chance(1, 2)) {      // borrow the name from another function that has expectations here
+                            Vec<const char*> cand;
+                            for (int q = 0; q < nFn; q++) if (fns[q] != (int)c.a) { const Fn& O = FNS[fns[q]]; for (int z = 0; z < O.np; z++) { bool own = false; for (int y = 0; y < F.np; y++) if (!strcmp(F.p[y].name, O.p[z].name)) own = true; if (!own) cand.push_back(O.p[z].name); } }
+                            if (!cand.empty()) c.s2 = sfmt("borrow:%d:%s", k, cand[f.below(cand.size())]);
+                        }
+                    }
                     else if (x < 80 && F.np > 0 && !ign) c.s2 = sfmt("omit:%d", (int)f.below((uint64_t)F.np));
                     else if (x < 88 && c.d) c.s2 = "object";
                     else if (x < 94 && c.d) c.s2 = "noobject";
@@ -615,7 +632,7 @@ struct Engine : public vf::Engine {
     static void concreteCall(const CallPlan& c, bool& hasObj, int& obj, Vec<Passed>& ps) {
         const Fn& F = FNS[c.fn]; ps.clear();
         hasObj = c.obj != 0 && c.dev != "noobject"; obj = c.dev == "object" ? otherObject(c.obj) : c.obj;
-        for (int k = 0; k < F.np; k++) { if (c.dev == sfmt("omit:%d", k)) continue; Passed p; p.name = paramNameFor(F, k, c.dev); p.val = c.vals[(size_t)k] & 7; p.ty = F.p[k].ty; if (p.ty == T_BOOL) p.val &= 1; if (p.ty == T_FPTR) p.val &= 3; ps.push_back(p); }
+        for (int k = 0; k < F.np; k++) { if (c.dev == sfmt("omit:%d", k)) continue; Passed p; p.name = paramNameFor(F, k, c.dev); p.val = c.vals[(size_t)k] & 7; if (retypeMode(k, c.dev) == 2) p.val = 99; p.ty = F.p[k].ty; if (p.ty == T_BOOL) p.val &= 1; if (p.ty == T_FPTR) p.val &= 3; ps.push_back(p); }
     }
     static int specIndex(const Cls& c, const Str& name) { const Fn& F = FNS[c.fn]; for (int k = 0; k < c.nSpec; k++) if (name == F.p[k].name) return k; return -1; }
     static bool valueEq(Ty ty, int a, int b) { if (ty == T_BOOL) return (a & 1) == (b & 1); if (ty == T_FPTR) return (a & 3) == (b & 3); return a == b; }
@@ -756,7 +773,7 @@ struct Engine : public vf::Engine {
                 if (!x.pass) r.nontrivial = true;
                 probe(x.pass ? "scenario_passes" : "scenario_deviates");
                 Str dev; for (size_t q = 0; q < scs[i].calls.size(); q++) if (!scs[i].calls[q].dev.empty()) dev = scs[i].calls[q].dev;
-                const char* devKind = dev.empty() ? "none" : (dev.compare(0, 4, "omit") == 0 ? "omit" : (dev.compare(0, 5, "value") == 0 ? "value" : (dev.compare(0, 6, "rename") == 0 ? "rename" : dev.c_str())));
+                const char* devKind = dev.empty() ? "none" : (dev.compare(0, 4, "omit") == 0 ? "omit" : (dev.compare(0, 5, "value") == 0 ? "value" : (dev.compare(0, 6, "rename") == 0 ? "rename" : (dev.compare(0, 6, "borrow") == 0 ? "borrow" : (dev.compare(0, 6, "retype") == 0 ? "retype" : (dev.compare(0, 4, "wrap") == 0 ? "wrap" : dev.c_str()))))));
                 if (!x.pass) fired(devKind);
                 if (passed != x.pass) {
                     Str adm; for (Set<Str>::iterator it = x.admissible.begin(); it != x.admissible.end(); ++it) adm += *it + " ";
